@@ -169,7 +169,8 @@ fn decode_subs(store: &AnnotationStore, subs: &[Selector], ranged: &mut bool) ->
                         match (t.resource_handle(), t.textselection_handle()) {
                             (Some(r), Some(ts)) => {
                                 let (b, e) = tsel_range(store, r, ts);
-                                Some((r.as_usize(), b, e, (false, true)))
+                                // the library reports (and serialises) the members of a ranged selector in begin-aligned form
+                                Some((r.as_usize(), b, e, (false, false)))
                             }
                             _ => None,
                         }
